@@ -72,6 +72,7 @@ func runC07(c *Config, r *Report) {
 	c05R8(ic, r, "R07.15")
 	c07R16(ic, r)
 	c07R17(ic, r)
+	c07R18(ic, r)
 	c06R11(ic, r, "R07.13")
 	zeroTableAgreement(ic, r, "R07.14")
 }
@@ -961,5 +962,91 @@ func c07R17(ic *IC, r *Report) {
 	}
 	if n == 0 {
 		r.Errorf("R07.17: no store into the result map found in Globals")
+	}
+}
+
+func init() {
+	ruleText["R07.18"] = "in the generator of compiled calls, the type consulted for an argument in a variadic position is the element type of the variadic parameter unless the call is written with an ellipsis: every funcType.In(variadic) used for one argument is followed by Elem(), directly or under a test excluding aCallSlice (sibling agreement of the literal-conversion type and of the interface-wrapper type)"
+}
+
+// c07R18: found D82 (io.MultiWriter(W{}, W{}) with interpreted writers: no wrapper was generated
+// because the wrapper's target type was the slice type).
+func c07R18(ic *IC, r *Report) {
+	info := ic.Info
+	fi := ic.fn(r, "callBin")
+	if fi == nil {
+		return
+	}
+	n := 0
+	ast.Inspect(fi.Decl.Body, func(m ast.Node) bool {
+		as, ok := m.(*ast.AssignStmt)
+		if !ok || len(as.Lhs) != 1 || len(as.Rhs) != 1 {
+			return true
+		}
+		// X = funcType.In(variadic) [ .Elem() ]
+		rhs := unparen(as.Rhs[0])
+		elem := false
+		if c, ok := rhs.(*ast.CallExpr); ok && isCallTo(info, c, "reflect.Type.Elem") {
+			elem = true
+			rhs = unparen(c.Fun.(*ast.SelectorExpr).X)
+		}
+		c, ok := rhs.(*ast.CallExpr)
+		if !ok || !isCallTo(info, c, "reflect.Type.In") || len(c.Args) != 1 {
+			return true
+		}
+		if id := identOf(c.Args[0]); id == nil || id.Name != "variadic" {
+			return true
+		}
+		lhs := identOf(as.Lhs[0])
+		if lhs == nil {
+			return true
+		}
+		n++
+		ok2 := elem
+		if !ok2 {
+			// followed, in the same block, by `if n.action != aCallSlice { X = X.Elem() }`
+			obj := info.ObjectOf(lhs)
+			path := enclosingPath(fi.Decl.Body, as)
+			for i := len(path) - 1; i >= 0 && !ok2; i-- {
+				blk, isBlk := path[i].(*ast.BlockStmt)
+				if !isBlk {
+					continue
+				}
+				for _, s := range blk.List {
+					ifs, isIf := s.(*ast.IfStmt)
+					if !isIf || ifs.Pos() < as.End() {
+						continue
+					}
+					mentionsSlice := false
+					ast.Inspect(ifs.Cond, func(q ast.Node) bool {
+						if id, ok := q.(*ast.Ident); ok {
+							if cst, ok := info.Uses[id].(*types.Const); ok && cst.Name() == "aCallSlice" {
+								mentionsSlice = true
+							}
+						}
+						return true
+					})
+					if !mentionsSlice {
+						continue
+					}
+					for _, bs := range ifs.Body.List {
+						if as2, ok := bs.(*ast.AssignStmt); ok && len(as2.Lhs) == 1 && len(as2.Rhs) == 1 {
+							if l2 := identOf(as2.Lhs[0]); l2 != nil && info.ObjectOf(l2) == obj {
+								if c2, ok := unparen(as2.Rhs[0]).(*ast.CallExpr); ok && isCallTo(info, c2, "reflect.Type.Elem") {
+									ok2 = true
+								}
+							}
+						}
+					}
+				}
+				break
+			}
+		}
+		r.Check(ok2, "R07.18", fmt.Sprintf("callBin/variadic-position-type#%d:%s", n, lhs.Name), ic.pos(as.Pos()), "an argument in a variadic position is typed by the element of the variadic parameter",
+			"callBin takes "+types.ExprString(as.Rhs[0])+", the slice type of the variadic parameter, as the type of one argument in a variadic position: no interface wrapper is generated for an interpreted value passed there (io.MultiWriter(W{}, W{}) panics in reflect: cannot use struct as io.Writer)")
+		return true
+	})
+	if n < 2 {
+		r.Errorf("R07.18: only %d uses of funcType.In(variadic) for an argument type found in callBin", n)
 	}
 }
